@@ -1148,6 +1148,11 @@ func TestCheck(t *testing.T) {
 	pathEvals, pathNontrivial := pathPhase(r, th, report)
 	fmt.Printf("phase B (paths): %d cases in %.1fs\n", pathEvals, time.Since(tB).Seconds())
 
+	// ---- phase D: item graphs with shared objects (in process) ----
+	tD := time.Now()
+	dagEvals, dagNontrivial, dagInfo := dagPhase(r, th, report)
+	fmt.Printf("phase D (item graphs with sharing): %v, %d evaluations in %.1fs\n", dagInfo, dagEvals, time.Since(tD).Seconds())
+
 	// ---- phase C: decoder robustness in worker processes ----
 	tC := time.Now()
 	dir, cleanup := vk.Scratch("c17")
@@ -1289,9 +1294,11 @@ func TestCheck(t *testing.T) {
 		outc[k] = v
 	}
 	r.Finish(map[string]any{
-		"evaluations":                        int(evals.Get()) + pathEvals + int(cEvals),
-		"distinct_nontrivial":                int(nontrivial.Get()) + pathNontrivial + len(distinct),
-		"rule":                               "a case is one oracle evaluation: a generated value through encode/decode/JSON/size/hash, one (content, arrival path) pair, or one byte string fed to one decoder; non-trivial = a generated value with a distinct non-empty encoding, a path case whose content decodes on at least two paths, or a distinct byte string (per decoder) that the decoder ACCEPTS so that the re-encode/re-decode/hash/size oracle is evaluated (rejected strings only exercise the no-panic/allocation oracle)",
+		"evaluations":                        int(evals.Get()) + pathEvals + int(cEvals) + dagEvals,
+		"distinct_nontrivial":                int(nontrivial.Get()) + pathNontrivial + len(distinct) + dagNontrivial,
+		"item_graphs":                        dagInfo,
+		"item_graph_evaluations":             dagEvals,
+		"rule":                               "a case is one oracle evaluation: a generated value through encode/decode/JSON/size/hash, one (content, arrival path) pair, one (item graph, limit or entry point) pair, or one byte string fed to one decoder; non-trivial = a generated value with a distinct non-empty encoding, a path case whose content decodes on at least two paths, an item graph in which some object is referenced more than once (compared with its un-shared copy under every limit), or a distinct byte string (per decoder) that the decoder ACCEPTS so that the re-encode/re-decode/hash/size oracle is evaluated (rejected strings only exercise the no-panic/allocation oracle)",
 		"codecs":                             len(reg),
 		"codec_names":                        codecNames,
 		"round_trip_values":                  int(evals.Get()),
@@ -1369,6 +1376,8 @@ func replay(r *vk.Run) {
 	switch {
 	case f.Mode == "path":
 		n = replayPath(r, f)
+	case f.Mode == "dag":
+		n = replayDag(r, f)
 	case c == nil:
 		fmt.Println("replay: unknown codec", f.Codec)
 	case f.Mode == "value":
